@@ -40,8 +40,52 @@ Definition event_ok (c : case) (k : nat) (e : event) (at_ : nat) : bool :=
   | _ => true
   end.
 
+(* a request that must come: the collection was started - possibly started again after a stop - (downstream knows the
+   partition), the partition was registered after that last start, the collection was not stopped afterwards and never announced dropped or dropped, and after the registration every shard
+   has been fed the partition's drop message: then there is exactly one drop-partition request *)
+Definition idx_labels (ls : list label) : list (nat * label) := combine (seq 0 (List.length ls)) ls.
+Definition last_start (ls : list label) (cid : Z) : option (nat * collinfo) :=
+  fold_left (fun acc il => match snd il with StartColl ci => if Z.eqb (ci_id ci) cid then Some (fst il, ci) else acc | _ => acc end) (idx_labels ls) None.
+Definition must_drop_part (ls : list label) (cid pid : Z) (pname : string) : bool :=
+  match last_start ls cid with
+  | None => false
+  | Some (i0, ci) =>
+      negb (ci_dropped ci)
+      && (match alookup (ci_parts ci) pname with Some _ => true | None => false end)
+      && negb (String.eqb pname "")
+      (* nothing ends the replication of the collection after its last start; the collection itself is never dropped *)
+      && forallb (fun il => match snd il with
+                            | StopColl c' _ => negb (Z.eqb c' cid) || Nat.ltb (fst il) i0
+                            | MarkDropped cs => negb (zmem cid cs)
+                            | Feed c' _ _ p _ => negb (Z.eqb c' cid) || negb (existsb (fun m => mkind_eqb (m_kind m) KDropColl) (p_msgs p))
+                            | _ => true end) (idx_labels ls)
+      (* registered after the start, before every drop message of the partition *)
+      && existsb (fun il => match snd il with
+                            | AddPart c' p' _ _ =>
+                                Z.eqb c' cid && Z.eqb p' pid && Nat.ltb i0 (fst il)
+                                && forallb (fun jl => match snd jl with
+                                                      | Feed c'' _ _ p _ => negb (Z.eqb c'' cid) || negb (existsb (fun m => mkind_eqb (m_kind m) KDropPart && Z.eqb (m_part m) pid) (p_msgs p))
+                                                                            || Nat.ltb (fst il) (fst jl)
+                                                      | _ => true end) (idx_labels ls)
+                            | _ => false end) (idx_labels ls)
+      (* every shard has read the drop message *)
+      && forallb (fun sp => existsb (fun jl => match snd jl with
+                                               | Feed c'' _ spch p _ => Z.eqb c'' cid && String.eqb spch (snd sp)
+                                                                        && existsb (fun m => mkind_eqb (m_kind m) KDropPart && Z.eqb (m_part m) pid && String.eqb (m_pname m) pname) (p_msgs p)
+                                               | _ => false end) (idx_labels ls)) (ci_src ci)
+      && negb (match ci_src ci with [] => true | _ => false end)
+  end.
+Definition drop_candidates (ls : list label) : list (Z * Z * string) :=
+  flat_map (fun l => match l with AddPart c p n _ => [(c, p, n)] | _ => [] end) ls.
+Definition requests_come (c : case) : bool :=
+  forallb (fun cpn => let '(cid, pid, pname) := cpn in
+                      negb (must_drop_part (c_labels c) cid pid pname)
+                      || Nat.eqb (List.length (filter (fun e => match e with EvDropPart c' p' _ => Z.eqb c' cid && Z.eqb p' pid | _ => false end) (c_events c))) 1)
+          (drop_candidates (c_labels c)).
+
 Definition check_C04 (c : case) : bool :=
   Nat.eqb (List.length (c_events c)) (List.length (c_ev_at c)) && Nat.eqb (List.length (c_out c)) (List.length (c_out_at c))
+  && requests_come c
   && forallb (fun kea => event_ok c (fst (fst kea)) (snd (fst kea)) (snd kea))
              (combine (combine (seq 0 (List.length (c_events c))) (c_events c)) (c_ev_at c)).
 
